@@ -160,8 +160,8 @@ class KModel(Model):
             nm = "rem_euclid(%s;%s)" % (a.r, b.r)
             self.uninterp[nm] = ('rem_euclid', a.r, b.r)
             return Num(Rat.atom(nm))
-        if name in ('vector_extensions::VectorExtensions::get_lower_index',
-                    '<ndarray::ArrayBase as vector_extensions::VectorExtensions>::get_lower_index'):
+        if name in ('VectorExtensions::get_lower_index',
+                    '<ndarray::ArrayBase as VectorExtensions>::get_lower_index'):
             if isinstance(a0, Obj) and a0.kind == 'axis':
                 q = deref_all(args[1])
                 self.lookups.append((a0.d['name'], q.r))
@@ -258,12 +258,10 @@ AX0_ENUM = Enum('ndarray::Axis', 'Axis', {'0': Num(0)})
 
 
 def interp1d_obj(strategy):
-    m_x = Obj('axis', name='x')
-    m_d = Obj('data', name='y', lead=1, idx=[])
-    return Enum('interp1d::Interp1D', 'Interp1D', {'x': m_x, 'data': m_d, 'strategy': strategy})
+    from . import layout
+    return layout.make('Interp1D', x=Obj('axis', name='x'), data=Obj('data', name='y', lead=1, idx=[]), strategy=strategy)
 
 
 def interp2d_obj(strategy):
-    return Enum('interp2d::Interp2D', 'Interp2D', {'x': Obj('axis', name='x'), 'y': Obj('axis', name='y'),
-                                                   'data': Obj('data', name='z', lead=2, idx=[]),
-                                                   'strategy': strategy})
+    from . import layout
+    return layout.make('Interp2D', x=Obj('axis', name='x'), y=Obj('axis', name='y'), data=Obj('data', name='z', lead=2, idx=[]), strategy=strategy)
